@@ -99,6 +99,8 @@ def check_grid_guard(ctx, wm: WeaverModel, rule='C20.1'):
     end-point equalities, whatever its syntactic form)"""
     it = wm.cls.methods['interpolate']
     mf_grid = wm.methods['interpolate']
+    if mf_grid.issues:
+        raise AnalysisError(f"{rule}: Weaver.interpolate not canonicalisable: {mf_grid.issues[:3]}")
     rs = [e for e in mf_grid.raises if e.data.get('exc') == 'ValueError']
     nx = mf_grid.params['new_x']
     x = wm.fields['x']
